@@ -833,7 +833,10 @@ def purity_walks_reach_every_component(F, rep, rule="PURITY-COPY"):
             reached = set()
             generic = False
             for arm, alt, vp in arm_alternatives(m):
-                grows = [c for c in nodes(arm["body"], "MethodCall") if c["m"] in ("push", "extend", "append") and peel(c["recv"]).get("hid") == wl]
+                # .. whenever the arm is taken: a component pushed only under a condition on the node itself (`if purity is open`) is
+                # not reached behind a node that fails the condition (`make : pu int -> fn int -> int : external`)
+                grows = [c for c in uncond_nodes(arm["body"]) if c.get("k") == "MethodCall" and c["m"] in ("push", "extend", "append")
+                         and peel(c["recv"]).get("hid") == wl]
                 stops = [r for r in nodes(arm["body"], "Ret")]
                 if vp and (grows or stops):
                     reached.add(last(vp))
